@@ -1,16 +1,70 @@
 package processor
 
-// explorer-backend part of the format harness (C06, C07): the explorer links
-// node@v0.0.0-20240818215257-cb0667c4f6c1 from the module cache, not /repo/node, so the same vectors are
-// run against THAT VerifySignatures / CalculateQuorum and against the explorer's own gate verifyVAA.
+// explorer-backend part of the format harness (C06, C07).  The explorer links
+// node@v0.0.0-20240818215257-cb0667c4f6c1 from the module cache, not /repo/node, so the same vectors are run
+// against THAT VerifySignatures / CalculateQuorum, and against the explorer's own gate.
+//
+// The gate is driven through the EXPORTED path only, wired the way explorer-backend/main.go wires it:
+// guardiansets.NewGuardianSets(list of sets) -> NewVAAGossipConsumer(sets, deduplicator, queue, logger) -> Push.
+// A VAA counts as accepted iff Push returns nil AND the message is on the queue.  (The unexported helper
+// verifyVAA is deliberately not referenced: a change of its signature must not break this harness.)
+// The deduplicator gets an in-memory cache that is emptied before every Push, so that the verdict of one
+// evaluation never depends on an earlier one (main.go uses an asynchronous ristretto cache).
 
 import (
+	"context"
+	"time"
+
+	"github.com/alephium/wormhole-fork/explorer-backend/deduplicator"
+	"github.com/alephium/wormhole-fork/explorer-backend/guardiansets"
+	"github.com/alephium/wormhole-fork/node/pkg/common"
 	nodeproc "github.com/alephium/wormhole-fork/node/pkg/processor"
 	"github.com/alephium/wormhole-fork/node/pkg/vaa"
+	"github.com/eko/gocache/v3/store"
 	ethcommon "github.com/ethereum/go-ethereum/common"
+	"go.uber.org/zap"
 )
+
+type vfMemCache struct{ m map[any]bool }
+
+func (c *vfMemCache) Get(ctx context.Context, key any) (bool, error) { return c.m[key], nil }
+func (c *vfMemCache) Set(ctx context.Context, key any, object bool, options ...store.Option) error {
+	c.m[key] = object
+	return nil
+}
+func (c *vfMemCache) Delete(ctx context.Context, key any) error { delete(c.m, key); return nil }
+func (c *vfMemCache) Invalidate(ctx context.Context, options ...store.InvalidateOption) error {
+	return nil
+}
+func (c *vfMemCache) Clear(ctx context.Context) error { c.m = map[any]bool{}; return nil }
+func (c *vfMemCache) GetType() string                 { return "verif-mem" }
+
+var vfExplCache = &vfMemCache{m: map[any]bool{}}
+
+// vfExplorerPush: sets[i] is the key list of guardian set i (the last one is the current set); the VAA is
+// pushed naming set `named`.
+func vfExplorerPush(v *vaa.VAA, sets [][]ethcommon.Address, named int) bool {
+	ctx := context.Background()
+	list := make([]*common.GuardianSet, len(sets))
+	for i, ks := range sets {
+		list[i] = &common.GuardianSet{Index: uint32(i), Keys: ks}
+	}
+	gsC := make(chan *common.GuardianSet, 8)
+	gs := guardiansets.NewGuardianSets(list, "", zap.NewNop(), time.Hour, ethcommon.Address{}, gsC)
+	queue := make(chan *Message, 8)
+	vfExplCache.Clear(ctx)
+	c := NewVAAGossipConsumer(gs, deduplicator.New(vfExplCache, zap.NewNop()), queue, zap.NewNop())
+	w := *v
+	w.GuardianSetIndex = uint32(named)
+	b, err := w.Marshal()
+	if err != nil {
+		panic(err)
+	}
+	err = c.Push(ctx, &w, b)
+	return err == nil && len(queue) == 1
+}
 
 func init() {
 	vfQuorumFn = nodeproc.CalculateQuorum
-	vfExplorerVerifyFn = func(v *vaa.VAA, addrs []ethcommon.Address) bool { return verifyVAA(v, addrs) == nil }
+	vfExplorerPushFn = vfExplorerPush
 }
